@@ -22,7 +22,7 @@ RULE = (
     "*_order subsets/permutations - the other dimensions either left to be "
     "iterated or aggregated (True / list; median/mean/max/min; quantile, std, "
     "stderr ranges), join_across_missing, palette, x as coordinate or as a "
-    "variable with xlink; histogram mode (bins None / int / explicit edges, "
+    "variable with xlink; histogram mode (bins None / int / explicit even or uneven edges, "
     "density or counts); heat-map mode (with / without palette, aggregated, "
     "row/col).  Oracle from the returned (fig, axs): for every combination of "
     "the remaining coordinates with any non-null y there is exactly one "
@@ -349,8 +349,13 @@ def check_hist(x, case, ds):
     if not np.any(np.isfinite(allv)):
         allv = ds["y"].values
     lo, hi = np.nanmin(allv), np.nanmax(allv)
-    if bins == "edges":
+    if bins in ("edges", "uneven"):
         edges_in = np.linspace(lo - 0.5, hi + 0.5, 6)
+        if bins == "uneven":
+            # bins of different widths (fine in the middle, coarse outside)
+            span = (hi - lo) + 1.0
+            edges_in = (lo - 0.5) + span * np.array(
+                [0.0, 0.3, 0.4, 0.5, 0.75, 1.0])
         kw["bins"] = edges_in.tolist() if case.get("bins_list") else edges_in
     elif isinstance(bins, int):
         kw["bins"] = bins
@@ -383,7 +388,7 @@ def check_hist(x, case, ds):
             if k in used or key != want_key:
                 continue
             cen = np.asarray(ln.get_xdata(), float)
-            if bins == "edges":
+            if bins in ("edges", "uneven"):
                 edges = edges_in
             else:
                 # uniform bins over the data range (edges recomputed rather
@@ -396,7 +401,7 @@ def check_hist(x, case, ds):
                 # the drawn bins must cover the data and sit mid-bin
                 require(np.allclose(cen, (edges[1:] + edges[:-1]) / 2,
                                     atol=1e-9), "bin-centres", f"{cen}")
-                if bins != "edges":
+                if bins not in ("edges", "uneven"):
                     require(abs(edges[0] - lo) < 1e-9 and
                             abs(edges[-1] - hi) < 1e-9, "bin-range",
                             f"bins span [{edges[0]}, {edges[-1]}], data "
@@ -552,7 +557,8 @@ def strategy(draw):
     # package treats it as the colour mapping, order selection included)
     if mode == "hist":
         case["p_nan"] = 0.0
-        case["bins"] = draw(st.sampled_from([None, 4, 7, "edges"]))
+        case["bins"] = draw(st.sampled_from([None, 4, 7, "edges",
+                                             "uneven"]))
         case["bins_list"] = draw(st.booleans())
         case["density"] = draw(st.booleans())
         case["nx"] = 5
